@@ -148,6 +148,20 @@ CHECKS['C10'] = dict(
     technique="Coq proof (induction over the class table with pointwise-related environments) + three-way differential check parse_file / extracted model / g++ type traits",
     ref="5/C10")
 
+CHECKS['C15'] = dict(
+    text="Proof (partial): the hand-written scanners that index strings by hand are transcribed with CHECKED primitives (s[i] beyond the terminator, substr/compare past the end and "
+         "fuel exhaustion are faults) and proved total for EVERY byte string: the #define constructor with parse_parameters (progress of the parameter loop), the macro-argument scanner "
+         "used in #if together with the caller's substr (final position within the string), the raw-string scanner (plus soundness: what is reported closed had the shape "
+         "delim ( body ) delim quote), the blank-stripping of show_line and the .N line splitter; each pinned variant is refuted by a witness (the repaired defects). Correspondence: the real "
+         "functions (ASan build, called through harness/scan_tool) agree with the extracted model on every string up to length 4-5 over each function's delimiter alphabet and on random "
+         "longer ones. Whole-program totality is explored, not proved: parse_file and interrogate (ASan/UBSan build and normal build) on generated valid headers, token/byte mutations of "
+         "those and of tests/ and parser-inc/, enumerated directive/operator/literal/unbalanced/deep-nesting cases, -D strings and .N files must exit 0/1 in time, without signal, "
+         "sanitizer report or uncaught exception; error diagnostics imply non-zero exit and no output file.",
+    note=TB + "the bison automaton, scope/type code and builder are outside the model (explored by the streams only); ASan cannot see reads inside a std::string small buffer; "
+         "time limit 30 s per run.",
+    technique="Coq proof (totality of checked-index scanner models, refutation of the pinned variants) + scanner-level differential check (ASan) + sanitizer fuzzing of the whole programs (a search, supporting the proof, not replacing it)",
+    ref="5/C15")
+
 PENDING = {
 }
 
